@@ -28,8 +28,10 @@ Inductive ty :=
                                    timedelta, timezone, ZoneInfo, UUID, ip*, Decimal, Fraction, bytes, paths *)
 | TEnum (lit: bool) (vals: list js)
                                 (* Enum (member values) / Literal (lit = true: one value gives "const") *)
-| TTyped (names: list string) (ts: list ty) (req: list bool).
+| TTyped (names: list string) (ts: list ty) (req: list bool)
                                 (* TypedDict: keys, value types, key is required *)
+| TOpaque (n: string).          (* a third-party class: no schema creator applies (NotImplementedError) unless its
+                                   serialization is overridden by a strategy *)
 
 (* one init-field of a dataclass: key used in "properties" (alias or name), type,
    "has neither default nor default_factory", rendered default (None = MISSING) *)
@@ -37,11 +39,19 @@ Record fld := mkfld { f_alias: string; f_ty: ty; f_req: bool; f_default: option 
 
 (* ---- Instance.fields() / Instance.alias: from the dataclass fields as written to the records above ---- *)
 Inductive rdef := RNone | RDefault (rendered: js) | RFactory.
+(* an overridden serialization method (get_overridden_serialization_method): pass_through, one of the basic types
+   str/int/float/bool, a callable with its return annotation (None: not annotated), or a strategy that has no
+   "serialize" part (skipped) *)
+Inductive ov := OPass | OBasic (t: ty) | ORet (t: option ty) | ODeser.
 Record rfld := mkrfld {
   r_name: string; r_meta_alias: option string;   (* field(metadata={"alias": ..}) / field_options(alias=..) *)
   r_ann_alias: option string;                     (* the last Annotated[.., Alias(..)] *)
-  r_ty: ty; r_init: bool; r_def: rdef; r_descr: option string }.
+  r_ty: ty; r_init: bool; r_def: rdef; r_descr: option string;
+  r_ser: option ov;                               (* field option "serialize" *)
+  r_strat: option ov }.                           (* field option "serialization_strategy" *)
 Record rcls := mkrcls { rc_aliases: list (string * string);   (* Config.aliases *)
+                        rc_dialect: list (string * ov);        (* Config.dialect.serialization_strategy, by type key *)
+                        rc_strats: list (string * ov);         (* Config.serialization_strategy, by type key *)
                         rc_fields: list rfld }.
 
 Definition first_some {A} (a b: option A) : option A := match a with Some _ => a | None => b end.
@@ -69,21 +79,75 @@ Definition keys {A} (l: list (string * A)) : list string := map fst l.
 (* alias = metadata alias, else Annotated Alias, else Config.aliases[name], else name; an empty alias is ignored
    (`if f_instance.alias: f_name = f_instance.alias`); fields with init=False are skipped; required = neither default nor
    default_factory; a default is rendered only for an explicit default (not for a factory) *)
-Definition digest_field (aliases: list (string * string)) (r: rfld) : option fld :=
+(* ---- on_type_with_overridden_serialization as a rewriting of the field type ----
+   Domain of this clause (ov_domain below): a replacement type mentions no overridden key and no third-party class, and a
+   FIELD-level replacement type has no element positions (the implementation re-applies a field-level override to the
+   derived element types: known finding field-override-container).  Strategies are looked up by the exact type
+   (scalars and third-party classes carry a key); the first source that has a "serialize" part wins:
+   field "serialize" option, field strategy, Config.dialect, Config. *)
+Definition tykey (t: ty) : option string :=
+  match t with
+  | TInt => Some "int" | TFloat => Some "float" | TBool => Some "bool" | TStr => Some "str" | TOpaque n => Some n
+  | _ => None
+  end.
+Fixpoint first_ser (l: list (option ov)) : option ov :=
+  match l with
+  | [] => None
+  | Some ODeser :: r | None :: r => first_ser r
+  | Some o :: _ => Some o
+  end.
+Definition apply_ov (o: option ov) (t: ty) : option ty :=   (* None: no replacement, go on with the creators *)
+  match o with
+  | Some (OBasic b) => Some b
+  | Some (ORet (Some t')) => Some t'
+  | Some (ORet None) => Some TAny
+  | _ => None
+  end.
+Definition table_ov (dial conf: list (string * ov)) (t: ty) : option ov :=
+  match tykey t with
+  | Some k => first_ser [lookup k dial; lookup k conf]
+  | None => None
+  end.
+(* every position below a field (not inside another dataclass: the owner changes there) *)
+Fixpoint resolve_ty (dial conf: list (string * ov)) (t: ty) {struct t} : ty :=
+  match apply_ov (table_ov dial conf t) t with
+  | Some t' => t'
+  | None =>
+    match t with
+    | TList a => TList (resolve_ty dial conf a)
+    | TSet a => TSet (resolve_ty dial conf a)
+    | TWrap a => TWrap (resolve_ty dial conf a)
+    | TDict a => TDict (resolve_ty dial conf a)
+    | TTuple ts => TTuple (map (resolve_ty dial conf) ts)
+    | TUnion ts => TUnion (map (resolve_ty dial conf) ts)
+    | TNamed a n ts d => TNamed a n (map (resolve_ty dial conf) ts) d
+    | TTyped n ts r => TTyped n (map (resolve_ty dial conf) ts) r
+    | _ => t
+    end
+  end.
+Definition resolve_field (dial conf: list (string * ov)) (r: rfld) : ty :=
+  match first_ser [r.(r_ser); r.(r_strat)] with
+  | Some OPass => r.(r_ty)        (* pass_through from the field: every derived position sees it again; no table lookup *)
+  | Some o => match apply_ov (Some o) r.(r_ty) with Some t' => t' | None => resolve_ty dial conf r.(r_ty) end
+  | None => resolve_ty dial conf r.(r_ty)
+  end.
+
+Definition digest_field (aliases: list (string * string)) (dial conf: list (string * ov)) (r: rfld) : option fld :=
   if r.(r_init) then
     let a := match first_some r.(r_meta_alias) (first_some r.(r_ann_alias) (lookup r.(r_name) aliases)) with
              | Some a => a | None => r.(r_name) end in
-    Some (mkfld (match a with EmptyString => r.(r_name) | _ => a end) r.(r_ty)
+    Some (mkfld (match a with EmptyString => r.(r_name) | _ => a end) (resolve_field dial conf r)
                 (match r.(r_def) with RNone => true | _ => false end)
                 (match r.(r_def) with RDefault v => Some v | _ => None end) r.(r_descr))
   else None.
-Fixpoint digest_fields (aliases: list (string * string)) (l: list rfld) : list fld :=
+Fixpoint digest_fields (aliases: list (string * string)) (dial conf: list (string * ov)) (l: list rfld) : list fld :=
   match l with
   | [] => []
-  | r :: t => match digest_field aliases r with Some f => f :: digest_fields aliases t | None => digest_fields aliases t end
+  | r :: t => match digest_field aliases dial conf r with
+              | Some f => f :: digest_fields aliases dial conf t | None => digest_fields aliases dial conf t end
   end.
 Definition digest_tab (E: list (string * rcls)) : ctab :=
-  map (fun c => (fst c, digest_fields (snd c).(rc_aliases) (snd c).(rc_fields))) E.
+  map (fun c => (fst c, digest_fields (snd c).(rc_aliases) (snd c).(rc_dialect) (snd c).(rc_strats) (snd c).(rc_fields))) E.
 
 (* ---- one JSONSchema object (children already rendered); to_dict order = field order of
         the JSONSchema dataclass, None fields omitted (Config.omit_none) ---- *)
@@ -295,6 +359,7 @@ Section Gen.
       | TLeaf tp fmt pat => fun st =>
           if is_type_name tp && match fmt with Some f => str_mem f formats | None => true end
           then SOk (leaf_sk tp fmt pat, st) else SErr
+      | TOpaque _ => fun st => SErr
       | TEnum lit vals => fun st => SOk (enum_sk lit vals, st)
       | TTyped names ts req => fun st =>
           if str_nodup names && Nat.eqb (List.length names) (List.length ts)
@@ -365,6 +430,7 @@ Fixpoint ty_ok (t: ty) : bool :=
       str_nodup names && Nat.eqb (List.length names) (List.length ts)
       && (fix go (l: list ty) := match l with [] => true | x :: r => ty_ok x && go r end) ts
   | TLeaf tp fmt _ => is_type_name tp && match fmt with Some f => str_mem f formats | None => true end
+  | TOpaque _ => false
   | _ => true
   end.
 
